@@ -127,6 +127,12 @@ def gen_rule(rng, is_date, valid=True):
             r.pop("bymonth", None)
             r["byweekno"] = _ilist(rng, 2, 51, neg=False) if maybe(0.8) else [rng.choice([-3, -10, -25, -50])]
             r["byday"] = [(0, w) for w in _ilist(rng, 0, 6, nmax=4)]
+            if maybe(0.3):
+                # the first and the last weeks, which reach into the neighbouring calendar year: on the days in the
+                # other year readings of the RFC differ (see C01's judge), and so does the period they count for
+                r["byweekno"] = sorted(set(rng.sample([1, 52, 53, -1, -2, -52, -53, 2, 51], rng.randint(1, 3))))
+                r["interval"] = 1
+                r["boundary_weeks"] = True
         elif shape == "monthday+byday":
             r["bymonthday"] = _ilist(rng, 1, 31, neg=True, nmax=8)
             r["byday"] = [(0, w) for w in _ilist(rng, 0, 6, nmax=3)]
@@ -165,7 +171,7 @@ def gen_rule(rng, is_date, valid=True):
             r["bysecond"] = _ilist(rng, 0, 59, must=(0, 59, 31, 45))
     # BYSETPOS only together with another BY part
     others = [k for k in r if k.startswith("by")]
-    if others and maybe(0.15) and fi <= 3:
+    if others and maybe(0.15) and fi <= 3 and not r.get("boundary_weeks"):
         r["bysetpos"] = _ilist(rng, 1, 6, neg=True, nmax=3, must=(1, -1))
     return r
 
